@@ -298,10 +298,8 @@ def dest_aliases(fi: FuncInfo) -> Set[str]:
         for n in walk_no_nested(fi.node):
             if isinstance(n, ast.Assign) and isinstance(n.targets[0], ast.Name) and n.targets[0].id not in out:
                 v = n.value
-                if isinstance(v, ast.IfExp) and isinstance(v.body, ast.Name) and v.body.id in out:
-                    out.add(n.targets[0].id)
-                    changed = True
-                elif isinstance(v, ast.Name) and v.id in out:
+                alts = [v.body, v.orelse] if isinstance(v, ast.IfExp) else [v]
+                if any(isinstance(a, ast.Name) and a.id in out for a in alts):
                     out.add(n.targets[0].id)
                     changed = True
     return out
